@@ -26,7 +26,7 @@ REAL = {'ThreadPoolExecutor': cf.ThreadPoolExecutor, 'ProcessPoolExecutor': cf.P
         'as_completed': cf.as_completed}
 
 # explicit plans for the dedicated harnesses (C11/C16/C19): when set they override the CTL choice points
-PLAN = {'order': None, 'assign': None, 'report': None}
+PLAN = {'order': None, 'assign': None, 'report': None, 'lazy': None}
 STATS = {'pool_calls': 0, 'pools': 0}
 EVENTS = []        # (pool kind, call index, worker) for every executed pooled call of the current execution
 # the atomic pools are not re-entrant across threads; one execution at a time per harness process
@@ -131,14 +131,37 @@ class _ModelPool:
 
 
 class ModelThreadPool(_ModelPool):
+    """worker threads share the process state; a real ThreadPoolExecutor starts min(#submitted, W) threads and runs
+    `initializer` at the start of each of them, i.e. before the first call that thread executes"""
     kind = 'thread'
+
+    def __init__(self, max_workers=None, thread_name_prefix='', initializer=None, initargs=(), **k):
+        super().__init__(max_workers)
+        self.initializer = initializer
+        self.initargs = initargs
+        self.tstarted = set()
+        self.next_rr = 0
 
     def _run(self, f):
         fn, a, k = f.payload
         STATS['pool_calls'] += 1
-        EVENTS.append(('thread', f.idx, None))
+        if self.initializer is not None:
+            nthreads = max(1, min(self.W, len(self.futs)))
+            if PLAN['assign'] is not None:
+                t = PLAN['assign'][f.idx] % nthreads
+            else:
+                t = self.next_rr % nthreads
+                self.next_rr += 1
+        else:
+            t = None
+        EVENTS.append(('thread', f.idx, t))
         try:
+            if t is not None and t not in self.tstarted:
+                self.tstarted.add(t)
+                self.initializer(*self.initargs)
             f.res = fn(*a, **k)
+        except seams.HarnessError:
+            raise
         except BaseException as e:   # noqa
             f.exc = e
         f.done_ = True
@@ -156,10 +179,19 @@ class ModelProcessPool(_ModelPool):
         self.next_rr = 0
 
     def _pack(self, fn, a, k):
+        """The real executor keeps the work item by reference and pickles it in a feeder thread some time between
+        submit() and the moment a worker receives it.  Choice `pickle` (one per pool): eagerly at submit (default) or
+        lazily when the call is handed to its worker - the two extremes of that window."""
         if self.wstate is None:
             st = (np.random.get_state(), _stdrandom.getstate())
             self.wstate = [st for _ in range(self.W)]
             self.wstarted = [False] * self.W
+            if PLAN['lazy'] is not None:
+                self.lazy = bool(PLAN['lazy'])
+            else:
+                self.lazy = bool(CTL.choose('sched:pickle', 2))
+        if self.lazy:
+            return ('lazy', fn, a, k)
         return pickle.dumps((fn, a, k))
 
     def _run(self, f):
@@ -180,7 +212,10 @@ class ModelProcessPool(_ModelPool):
                     self.wstarted[w] = True
                     if self.initializer is not None:
                         self.initializer(*self.initargs)
-                fn, a, k = pickle.loads(f.payload)
+                blob = f.payload
+                if isinstance(blob, tuple):
+                    blob = pickle.dumps(blob[1:])
+                fn, a, k = pickle.loads(blob)
                 f.res = pickle.loads(pickle.dumps(fn(*a, **k)))
             except seams.HarnessError:
                 raise
